@@ -294,6 +294,27 @@ def evaluate(case, doc=None):
                           f'{str(doc.target)[:300]!r}: select {[o.get(id(x)) for x in got_s]} reference {[o.get(id(x)) for x in want]}; '
                           f'match {got_m} reference {R.match_list(ctx, st, case["sel"])}'))
             break
+    # filter() over an iterable asks about every item on its own: parentless elements of this (namespace-aware) tree next
+    # to parentless elements built by a namespace-less parser, in both orders, against one match() call per item
+    if not fails:
+        d2, d3 = trees.materialise(case['tree']), trees.materialise(case['tree'])
+        roots = [next((c for c in d.target.contents if isinstance(c, bs4.Tag)), None) if isinstance(d.target, bs4.BeautifulSoup)
+                 else d.target for d in (d2, d3)]
+        roots = [r.extract() if r.parent is not None else r for r in roots if r is not None]
+        names = [e.name.split(':')[-1] for e in els[:3]] or ['a']
+        plain = [bs4.BeautifulSoup(f'<{n} id="p{i}" href="u"></{n}>', 'html.parser').find(True).extract() for i, n in enumerate(names[:2])]
+        inner = [e for r in roots[:1] for e in r.find_all(True)[:2]]
+        items = plain[:1] + roots[:1] + plain[1:] + roots[1:] + inner
+        try:
+            want_f = [i for i, x in enumerate(items) if sv.match(text, x, **kw)]
+            got_f = [[i for i, x in enumerate(items) if any(x is y for y in sv.filter(text, seq, **kw))] for seq in (items, items[::-1])]
+        except Exception as e:  # noqa: BLE001
+            fails.append((f'raises-{type(e).__name__}', f'filter({text!r}, parentless elements) map={case["map"]}: {e!r:.200}'))
+        else:
+            if got_f[0] != want_f or got_f[1] != want_f:
+                fails.append(('filter-over-parentless-elements-differs-from-match',
+                              f'{text!r} with map {case["map"]} over [html.parser <{names[0]}>, root of {str(roots[0])[:200]!r}, ...]: '
+                              f'filter keeps items {got_f[0]} (reversed list: {got_f[1]}), match() per item says {want_f}'))
     # metamorphic: document prefixes are never compared
     if case['tree']['kind'] in ('lxml-xml', 'xml-api') and case['flavour'] != 'xhtml':
         doc2 = trees.materialise(rename_prefixes(case['tree']))
